@@ -76,6 +76,15 @@ impl MerkleProof {
             return Err(verification_error!("proof created for a different leaf").into());
         }
 
+        if self.index >= self.total {
+            return Err(verification_error!(
+                "leaf index ({}) out of bounds of total leaves ({})",
+                self.index,
+                self.total
+            )
+            .into());
+        }
+
         let computed_root = subtree_root_from_aunts(self.index, self.total, leaf, &self.aunts)?;
 
         if computed_root != root {
